@@ -1,5 +1,6 @@
 import Rip.Driver.C20
 import Rip.Driver.C12
+import Rip.Driver.C15
 
 /-- One case per line: `<property> <case tokens…>` → one observation line. -/
 def dispatch (line : String) : String :=
@@ -11,6 +12,9 @@ def dispatch (line : String) : String :=
     match p with
     | "c20" => Rip.Driver.C20.handle rest
     | "c12" => Rip.Driver.C12.handle rest
+    | "c15" => Rip.Driver.C15.handle rest
+    | "c15d" => Rip.Driver.C15.handleDec rest
+    | "c15u" => Rip.Driver.C15.handleUtf8 rest
     | _ => "bad-op"
 
 partial def loop (h : IO.FS.Stream) (out : IO.FS.Stream) : IO Unit := do
